@@ -1376,11 +1376,31 @@ def r92(ctx: Ctx) -> RuleReport:
         s0, s2 = norm(tup.elts[0]), norm(tup.elts[2])
         fx = facts_ex(ctx, fi, a)
         eq = None
+        # names for the slots of the loop triple (source, _, target = t) and for the pushed variable (x = get_pushed_variable(g, t))
+        slotname = {f'{tv}[0]': 0, f'{tv}[2]': 2}
+        for n_ in ast.walk(loop):
+            if isinstance(n_, ast.Assign) and isinstance(n_.targets[0], ast.Tuple) and len(n_.targets[0].elts) == 3 and norm(n_.value) == tv:
+                for k_ in (0, 2):
+                    if isinstance(n_.targets[0].elts[k_], ast.Name):
+                        slotname[n_.targets[0].elts[k_].id] = k_
+        pushed_names = {nm for nm, vals in ctx.cg.local_assigns(fi).items() if len(vals) == 1 and isinstance(vals[0], ast.Call)
+                        and norm(vals[0].func).endswith('get_pushed_variable')}
+        s0, s2 = (f'{tv}[{slotname[x]}]' if x in slotname else x for x in (s0, s2))
         for fsrc, pol in fx:
             m_ = fsrc.replace(' ', '')
             for k in (0, 2):
                 if pol and (m_.endswith(f'.variable=={tv}[{k}]') or m_.startswith(f'{tv}[{k}]==') and m_.endswith('.variable')):
                     eq = k
+            if pol and '==' in m_ and eq is None:
+                l_, r_ = m_.split('==', 1)
+                for x_, y_ in ((l_, r_), (r_, l_)):
+                    if x_ in pushed_names and y_ in slotname:
+                        eq = slotname[y_]
+                        known = any((f2.replace(' ', '') in (f'{x_}isnotNone', x_) and p2) or (f2.replace(' ', '') in (f'{x_}isNone', f'not{x_}') and not p2) for f2, p2 in fx)
+                        if not known and slotname[y_] == 2:         # a source is never None, a target can be
+                            rep.violation(f'{fi.fq}: `{norm(a)[:60]}` is written only for a triple that carries a Push', fi.loc(a),
+                                          f'`{fsrc}` is also true when `{x_}` is None (the triple has no Push marker) and the slot is None too - the instance triple of a node without '
+                                          f'concept, a relation without target: a TOP triple to/from None is written for a triple that opens no node')
         if eq is None:
             # the complement: a Push stored on a triple names one of its two ends (interpret and the transformations only ever write
             # Push(source) or Push(target) there), so "is not the one" means "is the other"
